@@ -92,131 +92,80 @@ func pauseRewriteOK(b, a, indent string) bool {
 	return bt[be:] == at[ae:]
 }
 
-// matchEdits decides whether `after` is obtainable from `before` by the permitted edits.
-// fromEnd selects the matching direction (tried both ways to be independent of how equal
-// neighbouring lines are attributed).
+// matchEdits decides whether `after` is obtainable from `before` by the permitted edits: every
+// original line survives in order (byte-for-byte, or through one of the permitted rewrites), and
+// all added lines form ONE contiguous block. Because at most one block may be added, the result
+// must be before[:p] + block + before[p:] for some p; every p is tried, so that equal neighbouring
+// lines (blank lines, a new record whose headline equals an existing one) cannot confuse the
+// attribution.
 func matchEdits(before, after []model.Line, rules map[int]rewriteRule, indents map[int]string, maxBlocks int) error {
-	var errFwd error
-	for _, greedyFromEnd := range []bool{false, true} {
-		err := matchEditsDir(before, after, rules, indents, maxBlocks, greedyFromEnd)
+	n := len(before)
+	k := len(after) - n
+	if k < 0 {
+		return fmt.Errorf("the result has %d lines fewer than the original", -k)
+	}
+	var firstErr error
+	for p := 0; p <= n; p++ {
+		err := matchAt(before, after, rules, indents, p, k)
 		if err == nil {
 			return nil
 		}
-		if errFwd == nil {
-			errFwd = err
+		if firstErr == nil || p == n {
+			firstErr = err
+		}
+		if k == 0 {
+			break // nothing was added: the position is irrelevant
 		}
 	}
-	return errFwd
+	return firstErr
 }
 
-func reverseLines(ls []model.Line) []model.Line {
-	out := make([]model.Line, len(ls))
-	for i, l := range ls {
-		out[len(ls)-1-i] = l
-	}
-	return out
-}
-
-func matchEditsDir(before, after []model.Line, rules map[int]rewriteRule, indents map[int]string, maxBlocks int, fromEnd bool) error {
+// matchAt checks after == before[:p] + (k added lines) + before[p:] modulo the permitted rewrites.
+func matchAt(before, after []model.Line, rules map[int]rewriteRule, indents map[int]string, p, k int) error {
 	n := len(before)
-	B, A := before, after
-	idx := func(i int) int { return i }
-	if fromEnd {
-		B, A = reverseLines(before), reverseLines(after)
-		idx = func(i int) int { return n - 1 - i }
-	}
-	blocks := 0
-	inBlock := false
-	closed := [2]int{-1, -1}
 	usedClose, usedPause := false, false
-	insertedAfterFinal := false
-	type pending struct{ line int }
-	var eolGain []int
-	j := 0
-	matchLine := func(i int, a model.Line) (bool, string) {
-		b := B[i]
-		oi := idx(i)
-		textOK := b.Text == a.Text
-		how := ""
-		if !textOK {
-			if r, ok := rules[oi]; ok {
-				switch r.kind {
-				case "close":
-					if !usedClose && closeRewriteOK(b.Text, a.Text, r.last) {
-						textOK, how = true, "close"
-					}
-				case "append":
-					if strings.HasPrefix(a.Text, b.Text) {
-						textOK, how = true, "append"
-					}
-				case "pause":
-					if !usedPause && pauseRewriteOK(b.Text, a.Text, indents[oi]) {
-						textOK, how = true, "pause"
-					}
-				}
-			}
+	closed := [2]int{-1, -1}
+	var appended [][2]int
+	for i := 0; i < n; i++ {
+		b := before[i]
+		a := after[i]
+		if i >= p {
+			a = after[i+k]
 		}
+		textOK := b.Text == a.Text
 		if !textOK {
-			return false, ""
+			r, ok := rules[i]
+			if !ok {
+				return fmt.Errorf("original line %d (%q) does not survive (it reads %q now)", i+1, b.Original(), a.Original())
+			}
+			switch r.kind {
+			case "close":
+				if usedClose || !closeRewriteOK(b.Text, a.Text, r.last) {
+					return fmt.Errorf("line %d (%q) was rewritten to %q, which is not 'placeholder replaced by a time'", i+1, b.Text, a.Text)
+				}
+				usedClose, closed = true, r.entry
+			case "append":
+				if !strings.HasPrefix(a.Text, b.Text) {
+					return fmt.Errorf("line %d (%q) was rewritten to %q, which is not an appended text", i+1, b.Text, a.Text)
+				}
+				appended = append(appended, r.entry)
+			case "pause":
+				if usedPause || !pauseRewriteOK(b.Text, a.Text, indents[i]) {
+					return fmt.Errorf("line %d (%q) was rewritten to %q, which is not 'duration token replaced'", i+1, b.Text, a.Text)
+				}
+				usedPause = true
+			}
 		}
 		if b.EOL != a.EOL {
-			// only the previously final line may gain an ending
-			if !(oi == n-1 && b.EOL == "" && a.EOL != "") {
-				return false, ""
+			// only the previously final line may gain an ending, and only when lines follow it
+			if !(i == n-1 && b.EOL == "" && a.EOL != "" && k > 0 && p == n) {
+				return fmt.Errorf("line %d: line ending changed from %q to %q", i+1, b.EOL, a.EOL)
 			}
-			how += "+eol"
-		}
-		return true, how
-	}
-	for i := 0; i < len(B); i++ {
-		for {
-			if j >= len(A) {
-				return fmt.Errorf("original line %d (%q) does not survive", idx(i)+1, B[i].Original())
-			}
-			ok, how := matchLine(i, A[j])
-			if ok {
-				oi := idx(i)
-				if strings.HasPrefix(how, "close") {
-					usedClose = true
-					closed = rules[oi].entry
-				}
-				if strings.HasPrefix(how, "append") {
-					if closed != rules[oi].entry && !fromEnd {
-						return fmt.Errorf("text appended to line %d, which is not the last line of the closed entry", oi+1)
-					}
-				}
-				if strings.HasPrefix(how, "pause") {
-					usedPause = true
-				}
-				if strings.HasSuffix(how, "+eol") {
-					eolGain = append(eolGain, oi)
-				}
-				inBlock = false
-				j++
-				break
-			}
-			// A[j] is an added line
-			if !inBlock {
-				blocks++
-				inBlock = true
-			}
-			j++
 		}
 	}
-	if j < len(A) {
-		if !inBlock {
-			blocks++
-		}
-		insertedAfterFinal = true
-	}
-	_ = insertedAfterFinal
-	if blocks > maxBlocks {
-		return fmt.Errorf("added lines form %d separate blocks (at most %d allowed)", blocks, maxBlocks)
-	}
-	for _, oi := range eolGain {
-		// lines must have been added after the previously final line
-		if len(after) <= len(before) {
-			return fmt.Errorf("the final line %d gained a line ending although nothing was added after it", oi+1)
+	for _, e := range appended {
+		if e != closed {
+			return fmt.Errorf("text was appended to a line that is not the last line of the closed entry")
 		}
 	}
 	return nil
